@@ -104,7 +104,12 @@ func (p *strParser) parse() M {
 				p.pos++
 				break
 			}
+			before := p.pos
 			kids = append(kids, p.parse())
+			if p.pos == before { // a name the printer cannot delimit (e.g. a parenthesis): give up on it
+				p.foreign = true
+				p.pos++
+			}
 		}
 		return M{"op": word, "i": 0, "kids": kids}
 	}
